@@ -16,7 +16,7 @@ def values():
     (n1, t1), (n2, t2) = tables.sibling_gen_values("sha256", 4)
     return {
         "d1": {"n": n1, "tag": t1, "time": 111, "declare_size": True},
-        "d2": {"n": n2, "tag": t2, "time": 222, "metadata": {"m": 2}},
+        "d2": {"n": n2, "tag": t2, "time": 2 ** 62, "metadata": {"m": 2}},   # explicit time far in the future
     }
 
 
